@@ -162,37 +162,27 @@ Proof.
     clearbody OM EX. clear - Herr. destruct (negative x); lia.
 Qed.
 
-Lemma add_core_bound x y : normal x -> normal y -> mag y <= mag x -> expo x - expo y < 32 ->
-  add_exact_normal x y -> add_spec x y (add_core x y).
-Proof. intros. apply (add_core_gen_bound 5); try assumption; lia. Qed.
-
-(* ---- with the swap stage in front *)
-Lemma fpadd_partial_lemma a b : normal a -> normal b -> Z.abs (expo a - expo b) < 32 ->
-  add_exact_normal a b -> add_spec a b (fpadd a b).
+(* ---- with the swap stage in front: an ew-bit ediff wire is exact for exponent gaps below 2^ew *)
+Lemma fpadd_w_gap_lemma ew a b : 0 <= ew -> normal a -> normal b -> Z.abs (expo a - expo b) < 2 ^ ew ->
+  add_exact_normal a b -> add_spec a b (fpadd_w ew a b).
 Proof.
-  intros Ha Hb Hgap Hnorm. unfold fpadd. rewrite add_swap_val by (apply Ha || apply Hb).
+  intros Hew Ha Hb Hgap Hnorm. unfold fpadd_w. rewrite add_swap_val by (apply Ha || apply Hb).
   destruct (mag_order a b) as (A1 & _). destruct (mag_order b a) as (B1 & _).
   destruct (Z.ltb_spec (mag a) (mag b)) as [Hlt | Hge]; cbn [fst snd].
   - assert (expo a <= expo b) by lia.
-    assert (Hsp : add_spec b a (add_core b a)).
-    { apply add_core_bound; try assumption; try lia.
-      unfold add_exact_normal in *. rewrite Z.add_comm. exact Hnorm. }
-    unfold add_spec in *. rewrite (Z.add_comm (sval a) (sval b)), (Z.max_comm (expo a) (expo b)). exact Hsp.
-  - assert (expo b <= expo a) by lia. apply add_core_bound; try assumption; lia.
-Qed.
-
-(* the same datapath with an 8-bit ediff wire meets the claim for EVERY pair of normal operands:
-   the defect is the width of that one wire *)
-Lemma fpadd_wide_total_lemma a b : normal a -> normal b -> add_exact_normal a b -> add_spec a b (fpadd_wide a b).
-Proof.
-  intros Ha Hb Hnorm. unfold fpadd_wide. rewrite add_swap_val by (apply Ha || apply Hb).
-  destruct (mag_order a b) as (A1 & _). destruct (mag_order b a) as (B1 & _).
-  pose proof (proj2 Ha). pose proof (proj2 Hb).
-  destruct (Z.ltb_spec (mag a) (mag b)) as [Hlt | Hge]; cbn [fst snd].
-  - assert (expo a <= expo b) by lia.
-    assert (Hsp : add_spec b a (add_core_gen 8 b a)).
+    assert (Hsp : add_spec b a (add_core_gen ew b a)).
     { apply add_core_gen_bound; try assumption; try lia.
       unfold add_exact_normal in *. rewrite Z.add_comm. exact Hnorm. }
     unfold add_spec in *. rewrite (Z.add_comm (sval a) (sval b)), (Z.max_comm (expo a) (expo b)). exact Hsp.
   - assert (expo b <= expo a) by lia. apply add_core_gen_bound; try assumption; lia.
 Qed.
+
+(* 8 bits or more cover every gap between normal exponent fields (at most 253) *)
+Lemma fpadd_w_total_lemma ew a b : 8 <= ew -> normal a -> normal b -> add_exact_normal a b -> add_spec a b (fpadd_w ew a b).
+Proof.
+  intros Hew Ha Hb Hnorm. apply fpadd_w_gap_lemma; try assumption; [lia|].
+  pose proof (proj2 Ha). pose proof (proj2 Hb). pose proof (pow2_le 8 ew ltac:(lia)). lia.
+Qed.
+
+Lemma fpadd_bound_lemma a b : normal a -> normal b -> add_exact_normal a b -> add_spec a b (fpadd a b).
+Proof. intros. apply (fpadd_w_total_lemma 8); try assumption; lia. Qed.
